@@ -141,6 +141,10 @@ def soft(prop, known_list, signature, message, detail=None):
     raise Violation(signature, message, detail)
 
 
+class _HangSignal(BaseException):
+    pass
+
+
 class time_limit(object):
     """Turn a hang of the code under test into a Violation.
 
@@ -155,7 +159,8 @@ class time_limit(object):
         self.what = what
 
     def _handler(self, signum, frame):
-        raise Violation(self.signature, '%s did not return within %ss' % (self.what, self.seconds))
+        # a BaseException so that `except Exception` blocks inside the code under test do not swallow or re-wrap it
+        raise _HangSignal()
 
     def __enter__(self):
         import signal
@@ -167,4 +172,6 @@ class time_limit(object):
         import signal
         signal.setitimer(signal.ITIMER_REAL, 0)
         signal.signal(signal.SIGALRM, self._old)
+        if et is not None and issubclass(et, _HangSignal):
+            raise Violation(self.signature, '%s did not return within %ss' % (self.what, self.seconds))
         return False
